@@ -40,7 +40,7 @@ REQUIRED_MONITORS = ["F-matches-own-geometry", "DF-matches-own-geometry", "invF-
                      "facetbasis-normals-dx"]
 REQUIRED_REACH = ["per-cell-layout", "tind-none", "tind-permuted", "tind-repeated", "curved-mesh", "mirrored-mesh",
                   "interior-facets", "newton-inverse-nontrivial", "affine-flag-flipped", "many-points-per-cell", "same-points-other-subset",
-                  "mesh-in-small-units", "empty-subset", "closed-cell-points"]
+                  "mesh-in-small-units", "empty-subset", "closed-cell-points", "oriented-facet-set"]
 
 
 class OwnGeom:
@@ -367,6 +367,11 @@ def facet_maps(ctx, k, kind):
                 Y = mapping.invF(x[:, j:j + 1, :], np.array([c]))[:, 0, :]
                 ctx.check("G-on-neighbour-facet", bool(on_local_facet(kind, rd, slot, Y, 1e-8).all()),
                           mech=f"G-facet:{mname}:{kind}", facet=int(f), cell=c, slot=slot, Y=lambda: Y, **tag)
+                # ... and they are THE pulled-back points: the own cell map sends them back onto the facet points (an
+                # inverse that slides along the facet stays on the facet)
+                back = own.F(Y, np.array([c]))[:, 0, :]
+                ctx.close("F-invF-identity", back, x[:, j, :], rtol=1e-9, scale=hscale, mech=f"facet-points-pulled-back:{mname}:{kind}",
+                          facet=int(f), cell=c, side=side, **tag)
                 meas, av, flux, xo, no = own_facet_measure_and_normal(own, kind, rd, c, slot, nq=10)
                 if side == 0:
                     # the delivered surface factor integrated with the harness' own 10-point Gauss rule on the
@@ -492,6 +497,22 @@ def divergence(ctx, k, kind):
     V = float(np.sum(vol))
     ctx.close("divergence-theorem-mesh", total, d * V, rtol=1e-9 if mc.straight else 1e-7, scale=d * V + float(np.abs(x).max()) * float(fb.dx.sum()),
               mech=f"div-mesh:{mname}:{kind}", mesh=cname, geom=geom, desc=mc.desc)
+    # the oriented facet set around a cell subset (facets_around): normals point out of the cells the orientation names,
+    # so the flux of x through the set is d times the volume of the subset
+    if nt >= 3 and d > 1:
+        S = np.sort(rng.choice(nt, size=max(1, nt // 3), replace=False)).astype(np.int32)
+        ob = mesh.facets_around(S)
+        owners = f2t[np.asarray(ob.ori), np.asarray(ob)]
+        ctx.check("normals-outward", bool(np.isin(owners, S).all()), mech="facets-around:orientation-names-a-cell-outside-the-set",
+                  mesh=cname, cells=int(S.size))
+        fbo = skfem.FacetBasis(mesh, elem(), facets=ob, **qkw)
+        xo, no = np.array(fbo.global_coordinates()), np.array(fbo.normals)
+        tot = float((np.einsum("icq,icq->cq", xo, no) * fbo.dx).sum())
+        VS = float(np.sum(vol[S]))
+        ctx.close("divergence-theorem-mesh", tot, d * VS, rtol=1e-9 if mc.straight else 1e-7,
+                  scale=d * VS + float(np.abs(xo).max()) * float(fbo.dx.sum()), mech=f"div-oriented-facet-set:{mname}:{kind}",
+                  mesh=cname, geom=geom, cells=int(S.size), desc=mc.desc)
+        ctx.reached("oriented-facet-set")
     # FacetBasis.normals and dx against own geometry on a few facets
     bf = fb.find
     for j in rng.permutation(len(bf))[:4]:
